@@ -154,3 +154,8 @@ def copy_game(game):
 def game_stats(game):
     n = len(game["players"])
     return dict(n=n, transitions=sum(len(l or []) for l in game["transition_list"]))
+
+
+def coin(draw):
+    """A balanced boolean (Hypothesis' own booleans() lean towards False in the generate phase)."""
+    return draw(st.integers(0, 7)) % 2 == 1
